@@ -7,7 +7,7 @@
                                     was handed to the collector are dropped)
      internal/tracer/tracer.go     (GetDecompressor: which names are known)
    as the code is, statement by statement.  No proofs here. *)
-From V Require Export Base C14_Http.
+From V Require Export Base C14_Http C14_Server.
 Open Scope N_scope.
 
 (* ---------- what the tracer is configured with ---------- *)
@@ -400,6 +400,31 @@ Definition run_c14_handler (args : list sx) : sx :=
   | _ => run_c14_writer args
   end.
 
+(* ---------- responses without a body / a real exchange (c14.rt, optional 5th element of the response spec) ---------- *)
+(* (status clen headers trailers [bodykind]): 0 scripted body (default), 1 the transport returns http.NoBody,
+   2 a real exchange over loopback, 3 the transport returns an empty reader that is not http.NoBody *)
+Definition split_respspec (s : sx) : option (sx * Z) :=
+  match s with
+  | L [a; b; c; d] => Some (L [a; b; c; d], 0%Z)
+  | L [a; b; c; d; I k] => if (k <? 0)%Z || (3 <? k)%Z then None else Some (L [a; b; c; d], k)
+  | _ => None
+  end.
+Definition rop_data (o : rop) : bytes := match o with RRead d _ => d | RClose _ => [] end.
+Definition is_ok_close (o : rop) : bool := match o with RClose false => true | _ => false end.
+(* what an application does with a real body that is empty: Read -> (0, EOF), then Close (which succeeds) *)
+Definition empty_script (ops : list rop) : bool :=
+  match ops with RRead [] IoEOF :: cl => forallb is_ok_close cl | _ => false end.
+(* ... with a real body: reads, the last one reporting EOF, then Close *)
+Fixpoint live_script (ops : list rop) : bool :=
+  match ops with
+  | RRead _ IoNone :: r => live_script r
+  | RRead _ IoEOF :: cl => forallb is_ok_close cl
+  | _ => false
+  end.
+(* RFC 9110: no content in a response to HEAD, in 1xx, 204 and 304 *)
+Definition no_body_response (method : bytes) (status : N) : bool :=
+  bytes_eqb method (bs "HEAD") || (status =? 204) || (status =? 304).
+
 Definition is_eof_read (o : rop) : bool := match o with RRead _ IoEOF => true | _ => false end.
 
 (* (0 headers table ops) as c14.reader, or
@@ -412,12 +437,26 @@ Definition run_c14_rt (args : list sx) : sx :=
   | [rq0; hd; tbl; ops; rq; rs] =>
     or_bad (
     do rq0 <- un_bool rq0; do p <- un_headers hd; do tbl <- un_table tbl; do ops <- un_listof un_rop ops;
-    do q <- un_reqspec rq; do s <- un_respspec rs;
+    do q <- un_reqspec rq; do sk <- split_respspec rs;
+    let (rs4, bodykind) := sk in
+    do s <- un_respspec rs4;
     let '(mode, m, qclen, qh, chunks) := q in
     let '(stt, clen, h, t) := s in
     let (st, dk) := props_of_hmap h in     (* the response headers decide, as in newReader(resp.Header, ...) *)
     let (stq, dkq) := props_of_hmap qh in
     if rq0 then None else
+    if (bodykind =? 2)%Z then
+      (* a real exchange over loopback (HTTP/1.1, net/http's transport): the response side of the trace only
+         (when the transport reads the request body is its own business), and how often the trace was completed *)
+      if negb (live_script ops) || (mode =? 2)%Z then None
+      else if no_body_response m stt && negb (is_nil_bytes (concat (map rop_data ops))) then None
+      else
+        let r := reader_run (dec_fun dk tbl) (mk_cfg false st (has_dec dk)) ws_init ops in
+        ret (L [B (concat (map rop_data ops)); L (map sx_event (b_events (w_b (fst r)))); I 1%Z])
+    else
+    (* a response WITHOUT a body: http.NoBody (1), or an empty reader of its own (3): the application reads
+       (0, EOF) and closes - one body-end event, the trace is completed *)
+    if ((bodykind =? 1) || (bodykind =? 3))%Z && negb (empty_script ops) then None else
     (* the inner transport reads the request body to the end (through the tracing wrapper) before it answers;
        a nil Body (mode 2) stays nil: nothing to read, no request-body events *)
     let b1 := if (mode =? 2)%Z then bld_init
@@ -428,6 +467,118 @@ Definition run_c14_rt (args : list sx) : sx :=
   | _ => run_c14_reader args
   end.
 
+(* ---------- long bodies from a compact description (c14.long) ---------- *)
+(* byte i of the pattern (length, seed): not periodic in 256, so a shifted or shortened copy differs
+   (shifts and masks only: this runs a million times per case in the extracted model) *)
+Definition pat_byte (seed i : N) : N := N.land (seed + 13 * N.land i 255 + N.land (N.shiftr i 8) 255) 255.
+Definition add256 (v k : N) : N := let s := v + k in if s <? 256 then s else s - 256.
+(* built from the last byte down by the recurrence  byte (i-1) = byte i - 13 (mod 256), or byte i - 14 when i is
+   a multiple of 256 (the term i / 256 drops by one there): one comparison and one addition of small numbers per
+   byte - this runs a million times per case in the extracted model *)
+Definition pat_bytes (len seed : N) : bytes :=
+  snd (N.iter len (fun st : N * N * bytes =>
+         let '(j, v, acc) := st in
+         let jv : N * N := if j =? 0 then (255, add256 v 242) else (j - 1, add256 v 243) in
+         (fst jv, snd jv, snd jv :: acc))
+       (N.land len 255, pat_byte seed len, [])).
+(* a piece: explicit bytes, or (length seed) *)
+Definition un_piece (s : sx) : option bytes :=
+  match s with
+  | B b => Some b
+  | L [I n; I sd] => if (n <? 0)%Z || (4194304 <? n)%Z || (sd <? 0)%Z then None else Some (pat_bytes (Z.to_N n) (Z.to_N sd))
+  | _ => None
+  end.
+Definition un_pieces (s : sx) : option bytes := do ps <- un_listof un_piece s; ret (concat ps).
+Definition un_ltable (s : sx) : option (list (bytes * option bytes)) :=
+  un_listof (fun e => match e with
+                      | L [k; L []] => do k <- un_pieces k; ret (k, None)
+                      | L [k; L [v]] => do k <- un_pieces k; do v <- un_pieces v; ret (k, Some v)
+                      | _ => None end) s.
+(* chunk sizes, the rest (if any) as a last chunk *)
+Fixpoint cut_at (sizes : list nat) (b : bytes) : list bytes :=
+  match sizes with
+  | [] => match b with [] => [] | _ :: _ => [b] end
+  | k :: r => firstn k b :: cut_at r (skipn k b)
+  end.
+(* what is compared of a long byte string: length, two checksums (sum, and sum of the running sums, mod 2^32),
+   first and last 16 bytes; strings of at most 64 bytes are compared as they are *)
+Definition digest (b : bytes) : sx :=
+  let (s1, s2) := fold_left (fun (acc : N * N) x => (fst acc + x, snd acc + (fst acc + x))) b (0, 0) in
+  L [sx_N (blen b); sx_N (s1 mod 4294967296); sx_N (s2 mod 4294967296); B (firstn 16 b); B (skipn (length b - 16) b)].
+Fixpoint proj_sx (s : sx) : sx :=
+  match s with
+  | B b => if (length b <=? 64)%nat then s else digest b
+  | L l => L (map proj_sx l)
+  | I _ => s
+  end.
+
+(* (entry req headers table pieces cuts): the body described by the pieces, cut as said, through
+   entry 0 raw dataTracer, 1 tracingReader (reads, then (0, EOF)), 2 tracingResponseWriter (complete writes),
+   3 TracingRoundTripper, 4 TracingHandler (3 and 4: as 1 and 2 - the middleware adds nothing to the body);
+   results as those of c14.raw / c14.reader / c14.writer, long byte strings projected by proj_sx *)
+Definition run_c14_long (args : list sx) : sx :=
+  or_bad (match args with
+  | [I entry; rq; hd; tbl; pieces; cuts] =>
+    do rq <- un_bool rq; do p <- un_headers hd; do tbl <- un_ltable tbl; do body <- un_pieces pieces;
+    do cuts <- un_listof un_nat cuts;
+    let (st, dk) := p in
+    let chunks := cut_at cuts body in
+    let dec := dec_fun dk tbl in
+    if (entry =? 0)%Z then
+      ret (proj_sx (L (map sx_event (raw_events dec (mk_cfg rq st (has_dec dk)) chunks))))
+    else if ((entry =? 1) || (entry =? 3))%Z then
+      if (entry =? 3)%Z && rq then None else
+      let r := reader_run dec (mk_cfg rq st (has_dec dk)) ws_init (body_script chunks) in
+      ret (proj_sx (L [L (map sx_rres (snd r)); L (map sx_event (b_events (w_b (fst r))))]))
+    else if ((entry =? 2) || (entry =? 4))%Z then
+      if rq then None else
+      let cf := mk_cfg false st (has_dec dk) in
+      let r := writer_run dec cf ws_init (map (fun ch => WWrite ch (length ch) false) chunks) in
+      ret (proj_sx (L [L (map sx_wres (snd r)); L (map sx_event (b_events (w_b (try_finish cf (fst r) ENil))))]))
+    else None
+  | _ => None end).
+
+(* ---------- the reference server's handler chain (c14.server, c14.observed) ---------- *)
+(* (h2c rpc status headers table raw-body): reference mode, with a tracer; the test case asks for this raw
+   response.  -> (status on the wire, status the trace reports, body on the wire, response-side events).
+   The inner (swallowed) response is not observable from outside; by C14_Props.trace_sees_wire_bytes the
+   result does not depend on it. *)
+Definition run_c14_server (args : list sx) : sx :=
+  or_bad (match args with
+  | [h2c; _; I st; hd; tbl; body] =>
+    do h2c <- un_bool h2c; do p <- un_headers hd; do tbl <- un_table tbl; do body <- un_raw_body body;
+    if (st <? 0)%Z then None else
+    let (stp, dk) := p in
+    let raw := (raw_status (Z.to_N st), raw_body_bytes body) in
+    let (w, seen) := wire_and_seen (Some raw) (create_server_chain true true h2c) (0, []) in
+    match seen with
+    | None => None
+    | Some sn =>
+      ret (L [sx_N (fst w); sx_N (fst sn); B (snd w);
+              L (map sx_event (writer_events (dec_fun dk tbl) (mk_cfg false stp (has_dec dk))
+                                             [WWrite (snd sn) (length (snd sn)) false]))])
+    end
+  | _ => None end).
+
+(* (headers table wire-status wire-body traced-status observed-events): an exchange with the real reference
+   server whose response bytes cannot be predicted (an ordinary response echoes the request's headers in map
+   order): the bytes the plain client received, against what the server's trace recorded.
+   -> (status, events the trace must hold for that body) *)
+Definition run_c14_observed (args : list sx) : sx :=
+  or_bad (match args with
+  | [hd; tbl; I wst; B wire; _; _] =>
+    do p <- un_headers hd; do tbl <- un_table tbl;
+    let (stp, dk) := p in
+    let (w, seen) := wire_and_seen None (create_server_chain true true false) (Z.to_N wst, wire) in
+    match seen with
+    | None => None
+    | Some sn =>
+      ret (L [sx_N (fst sn);
+              L (map sx_event (writer_events (dec_fun dk tbl) (mk_cfg false stp (has_dec dk))
+                                             [WWrite (snd sn) (length (snd sn)) false]))])
+    end
+  | _ => None end).
+
 Definition c14_table : list (bytes * (list sx -> sx)) :=
   [ (bs "c14.raw", run_c14_raw);
     (bs "c14.reader", run_c14_reader);
@@ -435,4 +586,8 @@ Definition c14_table : list (bytes * (list sx -> sx)) :=
     (bs "c14.props", run_c14_props);
     (* the same scripts driven through TracingRoundTripper / TracingHandler (net/http plumbing) *)
     (bs "c14.rt", run_c14_rt);
-    (bs "c14.handler", run_c14_handler) ].
+    (bs "c14.handler", run_c14_handler);
+    (* long bodies from a compact description; the reference server's handler chain *)
+    (bs "c14.long", run_c14_long);
+    (bs "c14.server", run_c14_server);
+    (bs "c14.observed", run_c14_observed) ].
